@@ -359,6 +359,9 @@ theorem abs_step (s : State) (op : Op) : abs (step s op).1 = specStep (abs s) op
   | alias x d =>
     simp only [step, specStep, abs_vars]
     cases s.vars.lookup d <;> rfl
+  | joinBad d k =>
+    simp only [step, specStep]
+    cases s.deref d <;> rfl
 
 theorem get_fun (dict : Dict) : dict.get = fun k => absDict dict k.norm := by
   funext k; exact get_eq_abs dict k
@@ -437,6 +440,9 @@ theorem out_ok (s : State) (h : Inv s) (op : Op) : specOut (abs s) op (step s op
   | alias x d =>
     simp only [step, specOut, abs_vars]
     cases s.vars.lookup d <;> rfl
+  | joinBad d k =>
+    simp only [step, specOut, deref_abs]
+    cases s.deref d <;> rfl
 
 /-! ## the invariant is preserved -/
 
@@ -618,6 +624,9 @@ theorem inv_step (s : State) (h : Inv s) (op : Op) : Inv (step s op).1 := by
       rcases List.mem_cons.mp hp with e | hp'
       · rw [e]; exact h.varsOK (d, v) (mem_of_lookup s.vars d v hl)
       · exact h.varsOK p hp'
+  | joinBad d k =>
+    simp only [step]
+    cases s.deref d <;> exact h
 
 /-! ## frame lemmas -/
 
@@ -829,6 +838,7 @@ theorem protos_stable (s : State) (op : Op) (h : ∀ f ps, op ≠ .deffn f ps) :
   | size d => simp only [step]; cases s.deref d <;> rfl
   | each d => simp only [step]; cases s.deref d <;> rfl
   | alias x d => simp only [step]; cases s.vars.lookup d <;> rfl
+  | joinBad d k => simp only [step]; cases s.deref d <;> rfl
 
 /-- **literal_is_fresh** — every evaluation of a dictionary literal (at top level or inside
     a function called again) yields a NEW dictionary: its reference is one that nothing in
@@ -918,6 +928,50 @@ theorem fresh_literals_independent (s : State) (x y f : String) (hxy : x ≠ y) 
       simp [step, hx2, resolve, bindOpt]
     rw [hj]
     simp [step, hp2, State.deref, hl2]
+
+/-! ## operations that raise; Each whose function overwrites the entries it visits -/
+
+/-- **an operation that raises leaves every dictionary as it was**: the malformed add
+    `d,[k]` (IndexError before the assignment) changes nothing at all -/
+theorem failed_join_changes_nothing (s : State) (d : String) (k : Key) :
+    (step s (.joinBad d k)).1 = s := by
+  simp only [step]
+  cases s.deref d <;> rfl
+
+/-- overwriting an entry with itself is the identity on a dictionary without duplicate keys -/
+theorem set_self (d : Dict) (h : WFd d) (k : Key) (v : Val) (hm : (k, v) ∈ d) : d.set k v = d := by
+  induction d with
+  | nil => cases hm
+  | cons p rest ih =>
+    obtain ⟨k', v'⟩ := p
+    have h0 : ¬ k'.norm ∈ keys rest ∧ WFd rest := by
+      simpa [WFd, keys, List.nodup_cons] using h
+    rw [set_cons]
+    rcases List.mem_cons.mp hm with e | hm'
+    · cases e; simp
+    · have hne : ¬ k'.norm = k.norm := by
+        intro e
+        apply h0.1
+        rw [e]
+        exact List.mem_map.mpr ⟨(k, v), hm', rfl⟩
+      simp only [hne, if_false]
+      rw [ih h0.2 hm']
+
+theorem fold_set_self (d : Dict) (h : WFd d) (ps : List (Key × Val)) (hp : ∀ p ∈ ps, p ∈ d) :
+    ps.foldl (fun acc p => acc.set p.1 p.2) d = d := by
+  induction ps with
+  | nil => rfl
+  | cons p ps ih =>
+    simp only [List.foldl_cons]
+    rw [set_self d h p.1 p.2 (hp p List.mem_cons_self)]
+    exact ih (fun q hq => hp q (List.mem_cons_of_mem _ hq))
+
+/-- **Each with a function that overwrites the visited entries in place** (`{d,x;x}'d`: every
+    pair is joined back under its own key): the keys never change, so every pair is still
+    visited exactly once and the dictionary ends as it began — the program is `Op.each`. -/
+theorem each_selfupdate_is_identity (d : Dict) (h : WFd d) :
+    d.foldl (fun acc p => acc.set p.1 p.2) d = d :=
+  fold_set_self d h d (fun _ hp => hp)
 
 /-! ## the pinned tree's key comparison is not a key identity (recorded finding) -/
 
